@@ -370,11 +370,11 @@ func runProperty(prop, tier, repo, verif string, opts RunOpts, workers int, noRe
 					unconfirmed = append(unconfirmed, fmt.Sprintf("%s %s %s %q: native run gave %s %s", v.Harness, v.Kind, v.Site, v.Msg, nr.Kind, nr.Detail))
 					continue
 				}
-				nvio++
 				if kf := matchKnown(known, prop, v); kf != nil {
-					knownLines = append(knownLines, fmt.Sprintf("KNOWN-FINDING: property=%s %s [%s %s in %s]", prop, kf.What, v.Kind, v.Harness, v.Func))
+					knownLines = append(knownLines, fmt.Sprintf("KNOWN-FINDING: property=%s %s [%s in %s]", prop, kf.What, v.Kind, v.Harness))
 					continue
 				}
+				nvio++
 				rp := filepath.Join(verif, "replays", prop, fmt.Sprintf("%s-%d.json", v.Harness, k))
 				writeJSON(rp, ReplayFile{Property: prop, Harness: v.Harness, Pkg: pkg, Kind: v.Kind, Site: v.Site, Func: v.Func, Msg: v.Msg, Inputs: v.Inputs})
 				vioLines = append(vioLines, fmt.Sprintf("VIOLATION property=%s replay=%s", prop, rp))
@@ -408,6 +408,7 @@ func runProperty(prop, tier, repo, verif string, opts RunOpts, workers int, noRe
 	}
 
 	writeEvidence(P, prop, tier, results, validated, nvio, inconclusive, knownLines, time.Since(start).Seconds())
+	knownLines = dedup(knownLines)
 	for _, l := range knownLines {
 		fmt.Println(l)
 	}
